@@ -357,6 +357,24 @@ def run_case(case, order, tmp, want):
         return r
     finally:
         BUILD[0] = "ctor"
+    if case.get("switch"):
+        try:
+            return run_case_checks(case, order, tmp, want, r, o)
+        finally:
+            import neuroml
+            neuroml.enable_build_time_validation()
+    return run_case_checks(case, order, tmp, want, r, o)
+
+
+def switch(op):
+    """the documented global switch for the validation done by component_factory()/add()"""
+    import neuroml
+    neuroml.disable_build_time_validation() if op == "disable" else neuroml.enable_build_time_validation()
+
+
+def run_case_checks(case, order, tmp, want, r, o):
+    for op in case.get("switch", []):
+        switch(op)
     if "rec" in want:
         r["rec"] = run_validate(o, True)
     if "nonrec" in want:
@@ -389,8 +407,73 @@ def run_case(case, order, tmp, want):
                 r["file_valid"] = bool(is_valid_neuroml2(fn))
             except Exception as e:  # noqa
                 r["file_valid"] = "raised:" + type(e).__name__
+            r["file_validate"] = call_validate_neuroml2(fn)
         except Exception as e:  # noqa
             r["file_err"] = type(e).__name__ + ": " + str(e)[:200]
+    return r
+
+
+def call_validate_neuroml2(fn):
+    from neuroml.utils import validate_neuroml2
+    try:
+        validate_neuroml2(fn)
+        return "no exception"
+    except ValueError:
+        return "ValueError"
+    except BaseException as e:  # noqa
+        return "raised:" + type(e).__name__
+
+
+PADS = [("leading space", " %s"), ("trailing space", "%s "), ("trailing tab (&#9;)", "%s\t"), ("leading newline (&#10;)", "\n%s"),
+        ("trailing literal newline (normalised to a space by the XML parser)", "%s\n")]
+
+
+def padded_case(case, tmp):
+    """a conforming document written by the real writer; then ONE attribute value of the file is padded with white space
+    (nothing else changes); libxml2 against the bundled XSD is the oracle, the file wrappers must agree with it"""
+    from neuroml import loaders
+    from neuroml.utils import is_valid_neuroml2
+    from neuroml.writers import NeuroMLWriter
+    r = {"variants": []}
+    try:
+        fn = os.path.join(tmp, "padded_base.nml")
+        NeuroMLWriter.write(construct(case["tree"]), fn)
+        text = open(fn).read()
+        r["base_lx"], root = lx_validate_text(text)
+        if root is None or not r["base_lx"]["valid"]:
+            return r
+        r["base_is_valid"] = bool(is_valid_neuroml2(fn))
+        host = None
+        for e in root.iter():
+            if isinstance(e.tag, str) and etree.QName(e).localname == case["tag"] and e.get(case["attr"]) == case["good"]:
+                host = e
+                break
+        if host is None:
+            r["err"] = "host element not found"
+            return r
+        for label, fmt in PADS:
+            v = {"pad": label}
+            host.set(case["attr"], fmt % case["good"])
+            out = etree.tostring(root, xml_declaration=True, encoding="UTF-8").decode("utf-8")
+            if "literal" in label:
+                out = out.replace(case["good"] + "&#10;", case["good"] + "\n")
+            v["lx"], _ = lx_validate_text(out)
+            pf = os.path.join(tmp, "padded.nml")
+            open(pf, "w").write(out)
+            v["snippet"] = next((l.strip()[:200] for l in out.splitlines() if case["good"] in l and case["attr"] + "=" in l), "")
+            try:
+                v["is_valid"] = bool(is_valid_neuroml2(pf))
+            except BaseException as e:  # noqa
+                v["is_valid"] = "raised:" + type(e).__name__
+            v["validate"] = call_validate_neuroml2(pf)
+            try:
+                doc = loaders.read_neuroml2_file(pf)
+                v["loaded_rec"] = run_validate(doc, True)["raised"]
+            except BaseException as e:  # noqa
+                v["loaded_rec"] = "load raised:" + type(e).__name__
+            r["variants"].append(v)
+    except Exception as e:  # noqa
+        r["err"] = type(e).__name__ + ": " + str(e)[:300]
     return r
 
 
@@ -402,7 +485,10 @@ def file_ops(d, ops, order):
     for fn, name in ops:
         path = os.path.join(d, name)
         try:
-            if fn == "is_valid":
+            if fn == "switch":
+                switch(name)
+                out.append(None)
+            elif fn == "is_valid":
                 out.append(bool(is_valid_neuroml2(path)))
             elif fn == "validate":
                 try:
@@ -432,35 +518,35 @@ def sub_ops(d, ops, order_file):
 
 def file_history(P):
     """verdicts of is_valid_neuroml2 / validate_neuroml2 over files with includes: sequences of calls in ONE process
-    against the verdict each file gets in a fresh process"""
+    against the verdict each file gets in a fresh process (one fresh process per file: is_valid, validate, then the load
+    whose dump feeds the model); all processes of all scenarios share one pool"""
     from concurrent.futures import ThreadPoolExecutor
     from neuroml.writers import NeuroMLWriter
-    res = []
-    for sc in P["scenarios"]:
-        d = tempfile.mkdtemp(prefix="verif_c03_files_")
-        try:
-            for name, tree in sc["files"].items():
-                NeuroMLWriter.write(construct(tree), os.path.join(d, name))
-            of = os.path.join(d, "order.json")
-            json.dump(P["order"], open(of, "w"))
-            files = sorted(sc["files"])
-            jobs = [("seq", i, seq) for i, seq in enumerate(sc["sequences"])] + \
-                   [("fresh", f, [["is_valid", f], ["validate", f]]) for f in files] + \
-                   [("load", f, [["load", f]]) for f in files]
-            with ThreadPoolExecutor(max_workers=8) as ex:
-                outs = list(ex.map(lambda j: sub_ops(d, j[2], of), jobs))
-            r = {"sequences": [], "fresh": {}, "loaded": {}}
-            for (kind, key, ops), o in zip(jobs, outs):
-                if kind == "seq":
-                    r["sequences"].append([[fn, f, v] for (fn, f), v in zip(ops, o)])
-                elif kind == "fresh":
-                    r["fresh"][key] = {"is_valid": o[0], "validate": o[1]}
-                else:
-                    r["loaded"][key] = o[0]
-            res.append(r)
-        except Exception as e:  # noqa
-            res.append({"err": type(e).__name__ + ": " + str(e)[:300]})
-        finally:
+    res, dirs, jobs = [], [], []
+    try:
+        for k, sc in enumerate(P["scenarios"]):
+            d = tempfile.mkdtemp(prefix="verif_c03_files_")
+            dirs.append(d)
+            try:
+                for name, tree in sc["files"].items():
+                    NeuroMLWriter.write(construct(tree), os.path.join(d, name))
+                json.dump(P["order"], open(os.path.join(d, "order.json"), "w"))
+                res.append({"sequences": [None] * len(sc["sequences"]), "fresh": {}, "loaded": {}})
+                jobs += [(k, "seq", i, seq) for i, seq in enumerate(sc["sequences"])]
+                jobs += [(k, "fresh", f, [["is_valid", f], ["validate", f], ["load", f]]) for f in sorted(sc["files"])]
+            except Exception as e:  # noqa
+                res.append({"err": type(e).__name__ + ": " + str(e)[:300]})
+        with ThreadPoolExecutor(max_workers=10) as ex:
+            outs = list(ex.map(lambda j: sub_ops(dirs[j[0]], j[3], os.path.join(dirs[j[0]], "order.json")), jobs))
+        for (k, kind, key, ops), o in zip(jobs, outs):
+            r = res[k]
+            if kind == "seq":
+                r["sequences"][key] = [[fn, f, v] for (fn, f), v in zip(ops, o)]
+            else:
+                r["fresh"][key] = {"is_valid": o[0], "validate": o[1]}
+                r["loaded"][key] = o[2]
+    finally:
+        for d in dirs:
             shutil.rmtree(d, ignore_errors=True)
     print(json.dumps({"results": res}))
 
@@ -478,6 +564,18 @@ def main():
     P = json.load(sys.stdin)
     if P.get("mode") == "filehistory":
         return file_history(P)
+    if P.get("mode") == "padded":
+        tmp = tempfile.mkdtemp(prefix="verif_c03_pad_")
+        install_recorder()
+        real_stdout = sys.stdout
+        sys.stdout = io.StringIO()
+        try:
+            res = [padded_case(c, tmp) for c in P["cases"]]
+        finally:
+            sys.stdout = real_stdout
+            shutil.rmtree(tmp, ignore_errors=True)
+        print(json.dumps({"results": res}))
+        return
     order = P["order"]
     want = P.get("want", ["rec", "nonrec"])
     tmp = tempfile.mkdtemp(prefix="verif_c03_")
